@@ -35,7 +35,7 @@ pub fn prop() -> HistProp {
 pub fn run(tier: Tier, seed: u64) -> i32 {
     let hp = prop();
     let mut rep = Report::new(hp.id, tier, seed, hp.level, hp.rule);
-    rep.rule.push_str("; plus a transient storage fault (an error, or the retryable 'interrupted' condition) at EVERY device call of each of 24 scripted single operations (truncations, overwrite, append, create, mkdir, remove, rename, move ...) on mirrored volumes with 2 and 3 copies: a call that reports success although the fault fired inside it (retried, or swallowed) is held to the same byte comparison; a call that reports the error is not judged and ends the case");
+    rep.rule.push_str("; plus a transient storage fault (an error, the retryable 'interrupted' condition once, or six times in a row) at EVERY device call of each of 24 scripted single operations (truncations, overwrite, append, create, mkdir, remove, rename, move ...) on mirrored volumes with 2 and 3 copies: a call that reports success although the fault fired inside it (retried, or swallowed) is held to the same byte comparison; a call that reports the error is not judged and ends the case");
     for a in &hp.assumptions {
         rep.assume(a);
     }
@@ -56,9 +56,11 @@ pub fn run(tier: Tier, seed: u64) -> i32 {
         let n_scripts = super::c12::first_mutation_scripts(512).len();
         let kmax: u16 = tier.pick(600, 6000);
         let hp_ref = &hp;
-        let fb: Block = run::run_indexed("transient_fault_at_every_device_call_of_one_operation", (fvols.len() * n_scripts * 2) as u64, |i, blk| {
-            let interrupted = i % 2 == 1;
-            let i = i as usize / 2;
+        // kinds: a hard error; "interrupted" once; "interrupted" six times in a row (the call must still go through)
+        let fb: Block = run::run_indexed("transient_fault_at_every_device_call_of_one_operation", (fvols.len() * n_scripts * 3) as u64, |i, blk| {
+            let interrupted = i % 3 >= 1;
+            let burst: u8 = if i % 3 == 2 { 5 } else { 0 };
+            let i = i as usize / 3;
             let v = &fvols[i / n_scripts];
             let cs = v.cluster_size();
             let (name, script) = super::c12::first_mutation_scripts(cs).swap_remove(i % n_scripts);
@@ -66,14 +68,14 @@ pub fn run(tier: Tier, seed: u64) -> i32 {
             let (k0, step) = if tier == Tier::Quick && v.fat == 32 { ((seed % 2) as u16, 2usize) } else { (0, 1) };
             for k in (k0..kmax).step_by(step) {
                 let mut ops = super::c12::populate_ops(cs);
-                ops.push(Op::FaultNext { k, hold: script.len() as u8, interrupted });
+                ops.push(Op::FaultNext { k, hold: script.len() as u8, interrupted, burst });
                 ops.extend(script.iter().cloned());
                 let case = Case { vol: v.clone(), ops };
                 let mut out = hist::eval_case(hp_ref, &case);
                 let fired = out.classes.contains_key("cases_with_fault_fired");
                 out.nontrivial = fired;
-                out.hash = run::hash_str(&format!("fault|{}|{}|{}|{:?}", name, k, interrupted, v));
-                blk.record(&out, || serde_json::json!({"script": name, "fault_at_device_call": k, "interrupted": interrupted, "vol": v}));
+                out.hash = run::hash_str(&format!("fault|{}|{}|{}|{}|{:?}", name, k, interrupted, burst, v));
+                blk.record(&out, || serde_json::json!({"script": name, "fault_at_device_call": k, "interrupted": interrupted, "burst": burst, "vol": v}));
                 if let Some(m) = out.violation {
                     return Some(run::Failure { message: format!("transient fault{} at device call {} of '{}': {}", if interrupted { " (interrupted)" } else { "" }, k, name, m), case: serde_json::to_value(&case).unwrap(), kind: "history".into() });
                 }
